@@ -63,6 +63,17 @@ def tokenize(s):
 
 def emit_deps(instream, outstream):
     state = State.target
+    escaped = False
+
+    def write_char(value):
+        # When a dep becomes a target, an unescaped `%` would turn the line
+        # into a pattern rule (which says nothing about the file itself).
+        nonlocal escaped
+        if value == '%' and not escaped:
+            outstream.write('\\%')
+        else:
+            outstream.write(value)
+        escaped = value == '\\' and not escaped
 
     for tok, value in tokenize(instream.read()):
         if state == State.target:
@@ -81,7 +92,7 @@ def emit_deps(instream, outstream):
                 raise UnexpectedTokenError(tok)
         elif state == State.dep:
             if tok == Token.char:
-                outstream.write(value)
+                write_char(value)
             elif tok == Token.space:
                 outstream.write(':\n')
                 state = State.between_deps
@@ -93,7 +104,8 @@ def emit_deps(instream, outstream):
         else:  # state == State.between_deps
             if tok == Token.char:
                 state = State.dep
-                outstream.write(value)
+                escaped = False
+                write_char(value)
             elif tok == Token.newline:
                 state = State.target
             elif tok != Token.space:
